@@ -290,6 +290,8 @@ class ShiftInterp:
             return b
         if b is None:
             return a
+        if not hasattr(a, "kind") or not hasattr(b, "kind"):
+            return a  # bookkeeping entries of the environment (not abstract values)
         if a.kind == b.kind and a.kind in ("shift", "scale"):
             if a.k == b.k:
                 return ST(a.kind, a.k, a.axes if a.axes == b.axes else None, norm=a.norm and b.norm, cval=a.cval if a.cval == b.cval else None)
